@@ -327,6 +327,13 @@ def strip(c):
     return c
 
 
+def spurious_only(c):
+    """the case has a failing callback that returns a wrapped context.Canceled and nobody cancels the walk from outside"""
+    fk = c.get("failKind", [])
+    return (any(m < len(fk) and fk[m] == "spurious-cancel" for m in c.get("fail", []))
+            and c.get("cancelAfterEvents", -1) < 0 and not c.get("cancelAtUs") and not c.get("preCancel"))
+
+
 def check_intest(ctx, cases, res, info, mode):
     if not info["built"]:
         ctx.harness_broken(f"go test of the in-package walker harness ({mode}) failed to build/run against the current tree", info["raw"])
@@ -347,7 +354,7 @@ def check_intest(ctx, cases, res, info, mode):
             ctx.violation(f"Walk never returns: {'all goroutines in the synctest bubble are blocked' if mode == 'synctest' else 'no return within 20 s'} "
                           f"({c['family']} n={c['n']} failFast={c['failFast']})",
                           {"kind": "oracle", "oracle": f"Walk returns ({mode})", "case": strip(c), "result": {k: v for k, v in r.items() if k != 'trace'}},
-                          signature="walker-hang")
+                          signature="walker-hang-spurious-cancel" if spurious_only(c) else "walker-hang")
         elif r.get("panic") and not r.get("deadlock"):
             ctx.violation("panic while walking: " + r["panic"][:200], {"kind": "oracle", "case": strip(c), "result": {k: v for k, v in r.items() if k != 'trace'}},
                           signature="walker-panic")
